@@ -1513,6 +1513,7 @@ def _primitive_narrowphase(primitive_collisions_types, primitive_collisions_func
   return primitive_narrowphase
 
 
+# kept for callers that clear them; the dispatch lists are now built per call in primitive_narrowphase
 _PRIMITIVE_COLLISION_TYPES = []
 _PRIMITIVE_COLLISION_FUNC = []
 
@@ -1536,16 +1537,20 @@ def primitive_narrowphase(m: Model, d: Data, ctx: CollisionContext, collision_ta
   # TODO(team): keep the overhead of this small - not launching anything
   # for pair types without collisions, as well as updating the launch dimensions.
 
+  # the dispatch lists are rebuilt for this model on every call: a process-wide list would keep pair types
+  # enabled by previously simulated models (e.g. box-box with NATIVECCD disabled) and emit their contacts twice
+  collision_types = []
+  collision_func = []
   for types, func in _PRIMITIVE_COLLISIONS.items():
     if types not in collision_table:
       continue
     idx = upper_trid_index(len(GeomType), types[0].value, types[1].value)
-    if m.geom_pair_type_count[idx] and types not in _PRIMITIVE_COLLISION_TYPES:
-      _PRIMITIVE_COLLISION_TYPES.append(types)
-      _PRIMITIVE_COLLISION_FUNC.append(func)
+    if m.geom_pair_type_count[idx]:
+      collision_types.append(types)
+      collision_func.append(func)
 
   wp.launch(
-    _primitive_narrowphase(_PRIMITIVE_COLLISION_TYPES, _PRIMITIVE_COLLISION_FUNC),
+    _primitive_narrowphase(collision_types, collision_func),
     dim=d.naconmax,
     inputs=[
       m.geom_type,
